@@ -75,7 +75,12 @@ memory_alloc(size_t capacity_bytes, enum AllocatorHint hint)
 #ifdef VERIF_TYPED_RING
     if (capacity_bytes <= sizeof(ring_store[0]) && ring_used < 4) return ring_store[ring_used++];
 #endif
+#ifdef VERIF_FIXED_ALLOC
+    VASSUME(capacity_bytes <= VERIF_FIXED_ALLOC);
+    void* p = malloc(VERIF_FIXED_ALLOC); /* fixed-size object; the capacity stays symbolic */
+#else
     void* p = malloc(capacity_bytes);
+#endif
     VASSUME(p != 0);
     return p;
 }
